@@ -192,9 +192,6 @@ func isTemporalType(t string) bool {
 // c02Compare checks an evaluation result against the expected node list.
 func c02Compare(ctx *Ctx, src string, out evalOut, want []*Node, viaChoiceOther bool, lastName string) {
 	tag := ""
-	if viaChoiceOther {
-		tag = " [path crosses a choice element not named value]"
-	}
 	fail := func(sig, detail string) {
 		ctx.Fail("nav "+sig+tag, fmt.Sprintf("%s: %s; expected %d node(s), got %s", src, detail, len(want), clip(out.String(), 600)))
 	}
